@@ -27,7 +27,7 @@ RULE = (
 ASSUMPTIONS = [
     "small scope: <=4 (quick) / 5 (thorough) elements along the reduced axis, <=3 groups, value alphabet {1,-2,0,3.5,NaN}",
     "eager results are tied to NumPy by C01; here eager (engine='numpy') and the reference model are both oracles",
-    "method='blockwise' is asserted only when every group lies in one block of the given chunking, or labels are sorted runs without missing (automatic rechunk)",
+    "method='blockwise' is asserted only when every group lies in one block after flox's automatic rechunk (flox.rechunk_for_blockwise applied to the codes, as groupby_reduce does)",
     "a refusal (ValueError/NotImplementedError) of a configuration is recorded, not a violation (C19 owns refusals); any other exception is",
     "synchronous scheduler; schedule independence is C03's",
 ]
@@ -115,18 +115,9 @@ def fill_for(func):
 
 
 def blockwise_ok(lab_tuple, chunks):
-    """Precondition of method='blockwise' (see ASSUMPTIONS)."""
-    b = space.chunk_bounds(chunks)
-    blocks = {}
-    for i, lab in enumerate(lab_tuple):
-        if lab != lab:
-            continue
-        blocks.setdefault(lab, set()).add(space.block_of(i, chunks))
-    if all(len(v) == 1 for v in blocks.values()):
-        return True
-    if any(lab != lab for lab in lab_tuple):
-        return False
-    return all(lab_tuple[i] <= lab_tuple[i + 1] for i in range(len(lab_tuple) - 1))
+    """Precondition of method='blockwise' (see ASSUMPTIONS): after flox's own automatic rechunk."""
+    codes = np.array([-1 if lab != lab else int(lab) for lab in lab_tuple])
+    return e1.blockwise_layout_ok(codes, chunks)[0]
 
 
 def layout_classes(lab_tuple, chunks):
